@@ -542,7 +542,7 @@ Qed.
 
 (* the code before the repair: item k = "first enabled component at array index >= k" *)
 Lemma unfixed_items_refuted :
-  let vs := [mkVar 1 [false; true; true] [] [1; 1; 1]%Z] in
+  let vs := [mkVar 1 [false; true; true] [] [1; 1; 1]%Z [] false] in
   flat_map (item_evaluates_unfixed vs) (build_items (active_vars 0 vs)) = [(0, 1); (0, 1)] /\
   active_pairs (active_vars 0 vs) = [(0, 1); (0, 2)].
 Proof. vm_compute. split; reflexivity. Qed.
@@ -576,8 +576,9 @@ Proof. intros s s' H l _. cbn [act comp_item]. apply H. cbn [reads comp_item]. l
 
 Lemma wf_collect p : wfi (collect_item p).
 Proof.
-  intros s s' H l _. cbn [act collect_item]. apply zsum_map_ext. intros c Hc. f_equal.
-  apply H. cbn [reads collect_item]. apply in_map; auto.
+  intros s s' H l _. unfold collect_item in *. destruct (v_scripted (snd p)); cbn [act reads] in *.
+  - apply zsum_map_ext. intros c Hc. apply H. apply in_map; auto.
+  - apply zsum_map_ext. intros c Hc. rewrite (H (LCvc (fst p) c)); [reflexivity|]. apply in_map; auto.
 Qed.
 
 Lemma bias_x_ext bs s s' i : (forall l, In l (map LX (b_vars bs)) -> s l = s' l) -> i < length (b_vars bs) ->
@@ -638,11 +639,15 @@ Qed.
 (* the collection phase of variable v is independent of the components of every other variable *)
 Lemma indep_collect_comp (p : nat * var) (q : nat * nat) : fst p <> fst q -> indepi (collect_item p) (comp_item q).
 Proof.
-  intros Hne. unfold indep. cbn [writes reads comp_item collect_item].
-  split; [|split].
-  - intros l [Hl|[]] [Hl'|[]]; subst; discriminate.
-  - intros l [Hl|[]] [Hl'|[]]; subst; discriminate.
-  - intros l [Hl|[]] Hl'; subst. rewrite in_map_iff in Hl'. destruct Hl' as (c & E & _). inversion E. auto.
+  intros Hne. unfold indep, collect_item. destruct (v_scripted (snd p)); cbn [writes reads comp_item].
+  - split; [|split].
+    + intros l [Hl|[]] [Hl'|[]]; subst; discriminate.
+    + intros l [Hl|[]] [Hl'|[]]; subst; discriminate.
+    + intros l [Hl|[]] Hl'; subst. rewrite in_map_iff in Hl'. destruct Hl' as (c & E & _). inversion E. auto.
+  - split; [|split].
+    + intros l [Hl|[]] [Hl'|[]]; subst; discriminate.
+    + intros l [Hl|[]] [Hl'|[]]; subst; discriminate.
+    + intros l [Hl|[]] Hl'; subst. rewrite in_map_iff in Hl'. destruct Hl' as (c & E & _). inversion E. auto.
 Qed.
 
 (* distinct biases write their own energy / forces and read only variable values *)
@@ -1035,7 +1040,7 @@ Qed.
 (* the cached variant: two variables with timeStepFactor 2 and 3, one component each: at step 3 only variable 1 is awake but
    the list still names variable 0 (one item before, one item now) *)
 Lemma rebuild_items_cached_refuted :
-  let c := mkCfg [mkVar 2 [true] [] [1%Z]; mkVar 3 [true] [] [1%Z]] [] false false [] in
+  let c := mkCfg [mkVar 2 [true] [] [1%Z] [] false; mkVar 3 [true] [] [1%Z] [] false] [] false false [] in
   items_history rebuild_items [] c 0 4 = [[(0, 0); (1, 0)]; []; [(0, 0)]; [(1, 0)]] /\
   items_history rebuild_items_cached [] c 0 4 = [[(0, 0); (1, 0)]; []; [(0, 0)]; [(0, 0)]].
 Proof. vm_compute. split; reflexivity. Qed.
@@ -1046,7 +1051,7 @@ Lemma error_step_paths_differ :
     step_error c t = true /\
     runi (serial_cvc_items_err c t) s l <> runi (smp_cvc_items_err c t) s l.
 Proof.
-  exists (mkCfg [mkVar 1 [true] [false] [1%Z]; mkVar 1 [true] [] [1%Z]] [] false false []), 0,
+  exists (mkCfg [mkVar 1 [true] [false] [1%Z] [] false; mkVar 1 [true] [] [1%Z] [] false] [] false false []), 0,
          (fun l => match l with LIn 1 0 => 5%Z | _ => 0%Z end), (LX 1).
   split; [reflexivity|]. vm_compute. discriminate.
 Qed.
@@ -1188,3 +1193,87 @@ Lemma small_step_stmt (L V : Type) (eqb : L -> L -> bool) :
   valid_trace tr [] -> Permutation (wr_order tr) (seq 0 (length items)) ->
   seq_eq (mrun eqb items tr s []) (run eqb items s).
 Proof. intros He items Hw Hi tr s Hv HP. apply small_step_schedule_independent; auto. Qed.
+
+(* =========================================================================================== *)
+(* 11. Modes, main-thread biases, OpenMP static schedule                                         *)
+(* =========================================================================================== *)
+Lemma step_mode_eq_serial (m : smp_mode) (c : cfg) (t : nat) (oc ob : list nat) (s : store) :
+  Permutation oc (seq 0 (n_cvc_items c t)) -> Permutation ob (seq 0 (n_bias_items c t)) ->
+  forall l, step_mode m c t oc ob s l = step_serial c t s l.
+Proof.
+  intros Hc Hb. unfold step_mode. destruct (parallel_cvc_loop m); [|reflexivity].
+  apply smp_eq_serial; auto.
+Qed.
+
+Lemma parallel_bias_loop_spec (m : smp_mode) (active : list bias_kind) :
+  parallel_bias_loop m active = true <-> m = ModeCvcs /\ forall k, In k active -> replica_share_freq k = 0.
+Proof.
+  unfold parallel_bias_loop, need_main_thread. rewrite andb_true_iff, negb_true_iff. split.
+  - intros [Hm He]. split; [destruct m; auto; discriminate|].
+    intros k Hk. destruct (replica_share_freq k) eqn:E; auto.
+    exfalso. assert (existsb (fun k0 => 0 <? replica_share_freq k0) active = true); [|congruence].
+    apply existsb_exists. exists k. split; auto. rewrite E. reflexivity.
+  - intros [Hm Ha]. subst. split; auto.
+    destruct (existsb (fun k => 0 <? replica_share_freq k) active) eqn:E; auto.
+    apply existsb_exists in E. destruct E as (k & Hk & Hf). rewrite (Ha k Hk) in Hf. discriminate.
+Qed.
+
+Lemma list_sum_cons (a : nat) (l : list nat) : list_sum (a :: l) = a + list_sum l.
+Proof. reflexivity. Qed.
+
+Lemma chunks_concat (sizes : list nat) (start : nat) : concat (chunks sizes start) = seq start (list_sum sizes).
+Proof.
+  revert start. induction sizes as [|k r IH]; intros start; cbn [chunks concat]; auto.
+  rewrite list_sum_cons, IH. rewrite <- seq_app. reflexivity.
+Qed.
+
+Lemma indicator_sum (r a m : nat) :
+  list_sum (map (fun t => if Nat.ltb t r then 1 else 0) (seq a m)) = Nat.min (r - a) m.
+Proof.
+  revert a. induction m as [|m IH]; intros a; cbn [seq map].
+  - rewrite Nat.min_0_r. reflexivity.
+  - rewrite list_sum_cons, IH. destruct (Nat.ltb a r) eqn:E.
+    + apply Nat.ltb_lt in E. lia.
+    + apply Nat.ltb_ge in E. lia.
+Qed.
+
+Lemma list_sum_map_add {A} (f g : A -> nat) (l : list A) :
+  list_sum (map (fun x => f x + g x) l) = list_sum (map f l) + list_sum (map g l).
+Proof. induction l as [|a l IH]; cbn [map]; auto. rewrite !list_sum_cons, IH. lia. Qed.
+
+Lemma list_sum_const {A} (k : nat) (l : list A) : list_sum (map (fun _ => k) l) = k * length l.
+Proof. induction l as [|a l IH]; cbn [map length]; [cbn; lia|]. rewrite list_sum_cons, IH. lia. Qed.
+
+Lemma omp_sizes_sum (n nt : nat) : 0 < nt -> list_sum (omp_sizes n nt) = n.
+Proof.
+  intros Hnt. unfold omp_sizes.
+  rewrite (list_sum_map_add (fun _ => n / nt) (fun t => if Nat.ltb t (n mod nt) then 1 else 0)).
+  rewrite list_sum_const, seq_length, indicator_sum. rewrite Nat.sub_0_r.
+  assert (H := Nat.mod_upper_bound n nt). assert (H2 := Nat.div_mod n nt).
+  rewrite Nat.min_l by lia. lia.
+Qed.
+
+Lemma chunks_lengths (sizes : list nat) (start : nat) : map (@length nat) (chunks sizes start) = sizes.
+Proof.
+  revert start. induction sizes as [|k r IH]; intros start; cbn [chunks map]; auto. rewrite seq_length, IH. reflexivity.
+Qed.
+
+(* the static schedule is a partition of the items into nt contiguous blocks whose sizes differ by at most one *)
+Lemma omp_static_spec (n nt : nat) : 0 < nt ->
+  concat (omp_static n nt) = seq 0 n /\ length (omp_static n nt) = nt /\
+  Forall (fun q => length q = n / nt \/ length q = S (n / nt)) (omp_static n nt).
+Proof.
+  intros Hnt. unfold omp_static. split; [|split].
+  - rewrite chunks_concat, omp_sizes_sum; auto.
+  - rewrite <- (map_length (@length nat)). rewrite chunks_lengths. unfold omp_sizes. rewrite map_length, seq_length. reflexivity.
+  - rewrite Forall_forall. intros q Hq.
+    assert (Hl : In (length q) (map (@length nat) (chunks (omp_sizes n nt) 0))) by (apply in_map; auto).
+    rewrite chunks_lengths in Hl. unfold omp_sizes in Hl. rewrite in_map_iff in Hl. destruct Hl as (t & E & _).
+    destruct (Nat.ltb t (n mod nt)); lia.
+Qed.
+
+(* hence every execution of the library's OpenMP loop runs every item exactly once (instance of merge_perm) *)
+Lemma omp_static_exactly_once (n nt : nat) (l : list nat) : 0 < nt -> Merge (omp_static n nt) l -> Permutation l (seq 0 n).
+Proof.
+  intros Hnt HM. destruct (omp_static_spec n nt Hnt) as [Hc _]. rewrite <- Hc. symmetry. apply merge_perm. exact HM.
+Qed.
